@@ -1266,7 +1266,8 @@ fn gen_c11(seed: u64, idx: usize, _tier: Tier) -> (RunScenario, C11Extra) {
     let mut cmd_files = vec![];
     let mut files = vec![];
     let mut argmap_files = vec![];
-    let maps = ["dev", "ci", "extra"];
+    // an argmap name may have a directory component (`--argmaps env/linux` reads <argmap dir>/env/linux.json)
+    let maps = ["dev", "ci", "extra", "env/linux"];
     for i in 0..n {
         let path = if i > 0 && rng.chance(1, 5) { format!("t00/n{:02}", i) } else { format!("t{:02}", i) };
         let mut t = crate::world::TargetSpec { path: path.clone(), ..Default::default() };
@@ -1345,6 +1346,19 @@ fn gen_c11(seed: u64, idx: usize, _tier: Tier) -> (RunScenario, C11Extra) {
                 put(&mut argmap_files, format!("{}/{}.json", adir, m), b);
             }
         }
+        // neighbours that share a stem with an argmap file (an editor backup, notes): never an argmap
+        if rng.chance(1, 4) {
+            let name = *rng.pick(&["base", "dev", "ci"]);
+            let ext = *rng.pick(&["json~", "bak", "txt", "md"]);
+            let mut m = serde_json::Map::new();
+            for c in &cmds {
+                m.insert(c.clone(), serde_json::json!(["--STALE-NEIGHBOUR"]));
+            }
+            let p = format!("{}/{}.{}", adir, name, ext);
+            if !files.iter().any(|(f, _): &(String, String)| *f == p) {
+                files.push((p, Value::Object(m).to_string()));
+            }
+        }
         if cmd_files.iter().all(|c| c.target != path) {
             files.push((format!("{}/keep.txt", path), "x".into()));
         }
@@ -1372,6 +1386,13 @@ fn gen_c11(seed: u64, idx: usize, _tier: Tier) -> (RunScenario, C11Extra) {
             opts.args.push("solo".into());
         }
         opts.args_first = rng.chance(1, 2);
+        // now and then the target is spelled the way a shell completes it: a tool may refuse the spelling, but one
+        // that accepts it must still pass the --args values
+        match rng.below(12) {
+            0 => opts.targets[0] = format!("{}/", opts.targets[0]),
+            1 => opts.targets[0] = format!("./{}", opts.targets[0]),
+            _ => {}
+        }
         // clap would take a leading '-' value as a flag; the documented form passes plain values
         for a in opts.args.iter_mut() {
             if a.starts_with('-') {
@@ -1420,7 +1441,7 @@ fn expected_argv(sc: &RunScenario, ex: &C11Extra, command: &str, target: &str) -
     for m in &sc.script.opts.argmaps {
         add(m);
     }
-    if !sc.script.opts.args.is_empty() && sc.script.opts.targets.len() == 1 && sc.script.opts.targets[0] == target && sc.script.opts.commands.first().map(|c| c == command).unwrap_or(false) {
+    if !sc.script.opts.args.is_empty() && sc.script.opts.targets.len() == 1 && sc.script.opts.targets[0].trim_start_matches("./").trim_end_matches('/') == target && sc.script.opts.commands.first().map(|c| c == command).unwrap_or(false) {
         for a in &sc.script.opts.args {
             v.push(a.as_bytes().to_vec());
         }
